@@ -572,7 +572,7 @@ var depthGens = []depthGen{
 		return b.String()
 	}},
 	{name: "singleton-type-nest", top: true, make: func(n int) string { return "$S = " + nest("[", "int", "]", n) + ";\nfn p(a: $S) {}" }},
-	{name: "singleton-object-nest", top: true, make: func(n int) string { return "$S = " + nest("{ @setting a: ", "int", " }", n) + ";" }},
+	{name: "singleton-object-nest", top: true, make: func(n int) string { return "$S = { @setting a: " + nest("{ a: ", "int", " }", n) + " };" }},
 	{name: "impl-methods", top: true, flat: true, make: func(n int) string {
 		return "import templ FooFeature from templates;\n$S = int;\nimpl FooFeature with { light } for $S {" + rep(" fn dim(p: int) -> bool { true }", n) + " }"
 	}},
@@ -676,9 +676,12 @@ var bulkGens = []depthGen{
 		}
 		return b.String() + "};"
 	}},
-	{name: "open-braces-64k", top: true, make: func(int) string { return "fn q() " + rep("{", genMax-40) }},
+	// unclosed nests stay at the property's depth bound
+	{name: "open-braces-1000", top: true, make: func(int) string { return "fn q() " + rep("{", 1000) }},
 	{name: "close-braces-64k", top: true, make: func(int) string { return "fn q() {}" + rep("}", genMax-40) }},
-	{name: "open-parens-30000", make: func(int) string { return "let x = " + rep("(", 30000) }},
+	{name: "open-parens-1000", make: func(int) string { return "let x = " + rep("(", 1000) }},
+	{name: "open-brackets-1000", make: func(int) string { return "let x = " + rep("[", 1000) }},
+	{name: "open-mixed-1000", make: func(int) string { return "let x = " + rep("([{", 333) }},
 }
 
 // wrapDepth puts a fragment into a program: as entry module (fn main) or as imported module (pub fn f).
